@@ -3,8 +3,8 @@
 From LLGoV Require Import C07.Model C07.PItab C07.PStr C07.PName.
 Local Open Scope N_scope.
 
-(* delimiters that can follow a type name inside a rendering: ] and newline *)
-Definition D (c : N) : bool := (c =? 93) || (c =? 10).
+(* delimiters that can follow a type name inside a rendering: ] newline and space *)
+Definition D (c : N) : bool := (c =? 93) || (c =? 10) || (c =? 32).
 Definition Dsp (c : N) : bool := c =? 32.
 Definition Ddot (c : N) : bool := c =? 46.
 Definition Ddollar (c : N) : bool := c =? 36.
@@ -176,7 +176,7 @@ Variable H : str -> str.
 Hypothesis H_inj : forall a b, H a = H b -> a = b.
 Hypothesis H_alpha : forall x, forallb b64char (H x) = true.
 
-Notation nm t := (fst (tn H false t)).
+Notation nm t := (fst (tn true H false t)).
 
 Lemma H_freeD x : free D (H x). Proof. eapply forallb_free; [|apply H_alpha]. apply b64_notD. Qed.
 Lemma H_freeDD x : free DD (H x).
@@ -195,10 +195,10 @@ Proof.
   cbn [is_closure].
   destruct (is_func t1) eqn:F; [|reflexivity]. cbn [andb].
   destruct (str_eqb n1 s_f) eqn:N1; [|reflexivity].
-  apply str_eqb_eq in N1. subst. destruct t1; try discriminate. destruct e1; cbn in *; discriminate.
+  apply str_eqb_eq in N1. subst. discriminate.
 Qed.
 
-Lemma tn_true_wf t : wf t = true -> tn H true t = tn H false t.
+Lemma tn_true_wf t : wf t = true -> tn true H true t = tn true H false t.
 Proof.
   destruct t; try reflexivity. cbn [wf]. intros E. apply andb_true_iff in E as [E _].
   rewrite !tn_struct. rewrite (is_closure_wf _ _ E). reflexivity.
@@ -218,17 +218,14 @@ Lemma nm_named_none n : nm (TNamed None n TsNil ScPkg) = s_llgo ++ n.
 Proof. cbn. now rewrite app_nil_r. Qed.
 
 Definition func_text ps rs v : str :=
-  func_hdr (tys_len ps) (tys_len rs) v ++ tuple_lines H ps ++ tuple_lines H rs.
+  func_hdr (tys_len ps) (tys_len rs) v ++ tuple_lines true H ps ++ tuple_lines true H rs.
 Lemma nm_func ps rs v : nm (TFunc ps rs v) = s_func_ ++ H (func_text ps rs v). Proof. reflexivity. Qed.
 
-Definition struct_text fs : str := s_struct ++ [c_sp] ++ dec (fields_len fs) ++ [c_nl] ++ field_lines H fs.
-Definition iface_text ms : str := s_interface ++ [c_sp] ++ dec (methods_len ms) ++ [c_nl] ++ method_lines H ms.
+Definition struct_text fs : str := s_struct ++ [c_sp] ++ dec (fields_len fs) ++ [c_nl] ++ field_lines true H fs.
+Definition iface_text ms : str := s_interface ++ [c_sp] ++ dec (methods_len ms) ++ [c_nl] ++ method_lines true H ms.
 
 Fixpoint any_unexp (fs : fields) : bool :=
   match fs with FsNil => false | FsCons n _ _ _ _ r => negb (exported n) || any_unexp r end.
-Fixpoint any_unexp_m (ms : methods) : bool :=
-  match ms with MsNil => false | MsCons n _ _ _ _ r => negb (exported n) || any_unexp_m r end.
-
 Lemma fields_pkg_acc fs : forall a, a <> [] -> fields_pkg a fs = a.
 Proof. induction fs; intros a NE; cbn; auto. destruct a; [congruence|]. apply IHfs. discriminate. Qed.
 Lemma fields_pkg_wf P fs : P <> [] -> wf_fields P fs = true ->
@@ -239,15 +236,17 @@ Proof.
   apply ostr_eqb_eq in E. subst. cbn [fields_pkg any_unexp].
   destruct (exported n); cbn [negb orb]; auto. apply fields_pkg_acc; auto.
 Qed.
-Lemma methods_pkg_acc ms : forall a, a <> [] -> methods_pkg a ms = a.
-Proof. induction ms; intros a NE; cbn; auto. destruct a; [congruence|]. apply IHms. discriminate. Qed.
-Lemma methods_pkg_wf P ms : P <> [] -> wf_methods P ms = true ->
-  methods_pkg [] ms = if any_unexp_m ms then P else [].
+Lemma path_notsp c : path_char c = true -> Dsp c = false.
+Proof. intros; destruct (Dsp c) eqn:E; auto; chr. Qed.
+
+Lemma methods_pkg_path ms : wf_methods ms = true ->
+  forall acc, forallb path_char acc = true -> forallb path_char (methods_pkg acc ms) = true.
 Proof.
-  intros NE. induction ms as [|n p ps rs v r IH]; [reflexivity|].
-  cbn [wf_methods]. intros E. repeat (apply andb_true_iff in E as [E ?]).
-  apply ostr_eqb_eq in E. subst. cbn [methods_pkg any_unexp_m].
-  destruct (exported n); cbn [negb orb]; auto. apply methods_pkg_acc; auto.
+  induction ms as [|n p ps rs v r IH]; intros W acc A; [exact A|].
+  cbn [wf_methods] in W. repeat (apply andb_true_iff in W as [W ?]).
+  cbn [methods_pkg]. apply IH; auto.
+  destruct acc; auto. destruct p as [p|]; [|discriminate]. destruct (exported n); auto.
+  now destruct (wf_path_chars _ W) as (PC & _).
 Qed.
 
 Definition s_llgo_struct : str := [95;108;108;103;111;95;115;116;114;117;99;116].
@@ -260,7 +259,7 @@ Definition s_llgo_func : str := [95;108;108;103;111;95;102;117;110;99].
 Definition hpre_struct fs : str :=
   if any_unexp fs then struct_pkg fs ++ s_dotstruct else s_llgo_struct.
 Definition hpre_iface ms : str :=
-  if any_unexp_m ms then iface_pkg ms ++ s_dotiface else s_llgo_iface.
+  match methods_pkg [] ms with [] => s_llgo_iface | p => p ++ s_dotiface end.
 
 Lemma wf_struct_parts fs : wf (TStruct fs) = true ->
   wf_fields (struct_pkg fs) fs = true /\ (fs = FsNil \/ wf_path (struct_pkg fs) = true).
@@ -268,13 +267,6 @@ Proof.
   cbn [wf]. intros E. apply andb_true_iff in E as [A B]. split; auto.
   apply orb_true_iff in B as [B|B]; auto. apply andb_true_iff in B as [_ B]. destruct fs; auto; discriminate.
 Qed.
-Lemma wf_iface_parts ms : wf (TIface ms) = true ->
-  wf_methods (iface_pkg ms) ms = true /\ (ms = MsNil \/ wf_path (iface_pkg ms) = true).
-Proof.
-  cbn [wf]. intros E. apply andb_true_iff in E as [A B]. split; auto.
-  apply orb_true_iff in B as [B|B]; auto. apply andb_true_iff in B as [_ B]. destruct ms; auto; discriminate.
-Qed.
-
 Lemma nm_struct fs : wf (TStruct fs) = true ->
   nm (TStruct fs) = hpre_struct fs ++ [36] ++ H (struct_text fs).
 Proof.
@@ -288,20 +280,15 @@ Proof.
   - reflexivity.
 Qed.
 
-Lemma nm_iface ms : wf (TIface ms) = true -> ms <> MsNil ->
+Lemma nm_iface ms : ms <> MsNil ->
   nm (TIface ms) = hpre_iface ms ++ [36] ++ H (iface_text ms).
 Proof.
-  intros W NN. destruct (wf_iface_parts _ W) as [WF WP].
-  rewrite tn_iface. unfold hpre_iface. destruct WP as [-> | WP]; [congruence|].
-  destruct (wf_path_chars _ WP) as (_ & NE & _).
+  intros NN. rewrite tn_iface. unfold hpre_iface.
   assert (E : forall (A : Type) (x y : A), match ms with MsNil => x | _ => y end = y).
   { intros. destruct ms; [congruence|reflexivity]. }
-  rewrite E. cbn zeta.
-  rewrite (methods_pkg_wf _ _ NE WF). fold (iface_text ms).
-  destruct (any_unexp_m ms).
-  - destruct (iface_pkg ms) as [|c P']; [congruence|]. cbn [fst].
-    change s_diface with (s_dotiface ++ [36]). now rewrite <- !app_assoc.
-  - reflexivity.
+  rewrite E. cbn zeta. fold (iface_text ms).
+  destruct (methods_pkg [] ms) as [|c P']; [reflexivity|]. cbn [fst].
+  change s_diface with (s_dotiface ++ [36]). now rewrite <- !app_assoc.
 Qed.
 
 (* ---- shape of every rendering ---- *)
@@ -373,16 +360,15 @@ Proof.
   - (* iface *) destruct ms as [|n p ps rs v ms'].
     + cbn [shape_of]. change (nm (TIface MsNil)) with (s_llgo ++ [97;110;121]). rewrite <- app_assoc, shape_llgo.
       cbn. now rewrite (df_rest _ HR).
-    + rewrite (nm_iface _ W) by discriminate. unfold hpre_iface. cbn [shape_of].
-      destruct (any_unexp_m _) eqn:U.
-      * destruct (wf_iface_parts _ W) as [WF [? | WP]]; [discriminate|].
-        destruct (wf_path_chars _ WP) as (PC & _).
-        rewrite <- !app_assoc.
+    + rewrite nm_iface by discriminate. unfold hpre_iface. cbn [shape_of].
+      cbn [wf] in W. pose proof (methods_pkg_path _ W [] eq_refl) as PC.
+      destruct (methods_pkg [] (MsCons n p ps rs v ms')) as [|c P'] eqn:MP.
+      * rewrite <- !app_assoc. apply shape_llgo_iface.
+      * rewrite <- !app_assoc.
         match goal with |- shape (?P ++ s_dotiface ++ [36] ++ ?h ++ r) = _ =>
           change (P ++ s_dotiface ++ [36] ++ h ++ r) with (P ++ (s_dotiface ++ [36]) ++ h ++ r) end.
         rewrite shape_pkg_prefixed; [|assumption|reflexivity|cbn; lia].
         rewrite df_free; [reflexivity|]. now apply path_free_DD.
-      * rewrite <- !app_assoc. apply shape_llgo_iface.
 Qed.
 
 (* ---- pieces of the named rendering ---- *)
@@ -453,17 +439,6 @@ Proof.
     pose proof (dec_digits i) as DG. pose proof (dec_nonempty i) as NE.
     destruct (dec i); [congruence|]. cbn in E. injection E as <- _. cbn in DG. discriminate.
   - apply negb_true_iff in W1, W2. rewrite W1, W2 in E. cbn in E. injection E as E. f_equal. now apply dec_inj.
-Qed.
-
-Lemma emb_name_ident t t2 n1 n2 :
-  identb t t2 = true -> emb_name_ok n1 t = true -> emb_name_ok n2 t2 = true -> n1 = n2.
-Proof.
-  destruct t, t2; cbn [identb emb_name_ok]; try discriminate.
-  - intros E A B. repeat (apply andb_true_iff in E as [E ?]).
-    apply str_eqb_eq in A, B. match goal with X : str_eqb name name0 = true |- _ => apply str_eqb_eq in X end. congruence.
-  - destruct t, t2; cbn [identb]; try discriminate.
-    intros E A B. repeat (apply andb_true_iff in E as [E ?]).
-    apply str_eqb_eq in A, B. match goal with X : str_eqb name name0 = true |- _ => apply str_eqb_eq in X end. congruence.
 Qed.
 
 Lemma scope_noslash p sc : ~ In 47 (scope_str (Some p) sc).
@@ -593,10 +568,9 @@ Proof.
 Qed.
 Lemma hpre_iface_free ms : wf (TIface ms) = true -> free Ddollar (hpre_iface ms).
 Proof.
-  intros W. unfold hpre_iface. destruct (any_unexp_m ms) eqn:U; [|reflexivity].
-  destruct (wf_iface_parts _ W) as [_ [-> | WP]]; [discriminate|].
-  destruct (wf_path_chars _ WP) as (PC & _). apply free_app. split; [|reflexivity].
-  eapply forallb_free; [|exact PC]. apply path_char_notdollar.
+  intros W. unfold hpre_iface. cbn [wf] in W. pose proof (methods_pkg_path _ W [] eq_refl) as PC.
+  destruct (methods_pkg [] ms) as [|c P']; [reflexivity|].
+  apply free_app. split; [|reflexivity]. eapply forallb_free; [|exact PC]. apply path_char_notdollar.
 Qed.
 
 Lemma nm_func' ps rs v : nm (TFunc ps rs v) = s_llgo_func ++ [36] ++ H (func_text ps rs v).
@@ -605,15 +579,15 @@ Proof. reflexivity. Qed.
 Definition Q_ty (t : ty) : Prop := forall t2 r1 r2, wf t = true -> wf t2 = true -> headD D r1 -> headD D r2 ->
   nm t ++ r1 = nm t2 ++ r2 -> identb t t2 = true /\ r1 = r2.
 Definition Q_tys (ts : tys) : Prop := forall ts2 r1 r2, wf_tys ts = true -> wf_tys ts2 = true ->
-  tys_len ts = tys_len ts2 -> tuple_lines H ts ++ r1 = tuple_lines H ts2 ++ r2 ->
+  tys_len ts = tys_len ts2 -> tuple_lines true H ts ++ r1 = tuple_lines true H ts2 ++ r2 ->
   identb_tys ts ts2 = true /\ r1 = r2.
 Definition Q_fields (fs : fields) : Prop := forall fs2 P P' r1 r2,
   wf_fields P fs = true -> wf_fields P' fs2 = true -> (any_unexp fs = true -> P = P') ->
-  fields_len fs = fields_len fs2 -> field_lines H fs ++ r1 = field_lines H fs2 ++ r2 ->
+  fields_len fs = fields_len fs2 -> field_lines true H fs ++ r1 = field_lines true H fs2 ++ r2 ->
   identb_fields fs fs2 = true /\ r1 = r2.
-Definition Q_methods (ms : methods) : Prop := forall ms2 P P' r1 r2,
-  wf_methods P ms = true -> wf_methods P' ms2 = true -> (any_unexp_m ms = true -> P = P') ->
-  methods_len ms = methods_len ms2 -> method_lines H ms ++ r1 = method_lines H ms2 ++ r2 ->
+Definition Q_methods (ms : methods) : Prop := forall ms2 r1 r2,
+  wf_methods ms = true -> wf_methods ms2 = true ->
+  methods_len ms = methods_len ms2 -> method_lines true H ms ++ r1 = method_lines true H ms2 ++ r2 ->
   identb_methods ms ms2 = true /\ r1 = r2.
 
 Lemma bool_str_split v v' x x' : bool_str v ++ [10] ++ x = bool_str v' ++ [10] ++ x' -> v = v' /\ x = x'.
@@ -631,7 +605,7 @@ Proof.
   apply (dec_split Dsp) in E as [NR E]; [|apply digit_notsp|exact eq_refl|exact eq_refl].
   injection E as E. apply bool_str_split in E as [-> E].
   destruct (QP ps' _ _ W1 W3 NP E) as [A E'].
-  rewrite <- (app_nil_r (tuple_lines H rs)), <- (app_nil_r (tuple_lines H rs')) in E'.
+  rewrite <- (app_nil_r (tuple_lines true H rs)), <- (app_nil_r (tuple_lines true H rs')) in E'.
   destruct (QR rs' _ _ W2 W4 NR E') as [B _]. auto.
 Qed.
 
@@ -645,15 +619,6 @@ Proof.
   - exfalso. change s_llgo_struct with ([95;108;108;103;111] ++ [95;115;116;114;117;99;116]) in E.
     apply app_inv_len in E as [_ E]; [discriminate|reflexivity].
 Qed.
-Lemma hpre_iface_pkg ms ms2 : wf (TIface ms) = true -> wf (TIface ms2) = true ->
-  hpre_iface ms = hpre_iface ms2 -> any_unexp_m ms = true -> iface_pkg ms = iface_pkg ms2.
-Proof.
-  intros W W2 E U. unfold hpre_iface in E. rewrite U in E. destruct (any_unexp_m ms2).
-  - now apply app_inv_tail in E.
-  - exfalso. change s_llgo_iface with ([95;108;108;103;111] ++ [95;105;102;97;99;101]) in E.
-    apply app_inv_len in E as [_ E]; [discriminate|reflexivity].
-Qed.
-
 Lemma wf_func_parts ps rs v : wf (TFunc ps rs v) = true -> wf_tys ps = true /\ wf_tys rs = true.
 Proof. cbn [wf]. intros E. now apply andb_true_iff in E. Qed.
 
@@ -664,18 +629,82 @@ Proof.
   apply (dec_split D) in E as [NL E]; [|apply digit_notD|exact eq_refl|exact eq_refl].
   injection E as E.
   destruct (wf_struct_parts _ W) as [WF _]. destruct (wf_struct_parts _ W2) as [WF2 _].
-  rewrite <- (app_nil_r (field_lines H fs)), <- (app_nil_r (field_lines H fs2)) in E.
+  rewrite <- (app_nil_r (field_lines true H fs)), <- (app_nil_r (field_lines true H fs2)) in E.
   destruct (Q fs2 _ _ _ _ WF WF2 (hpre_struct_pkg _ _ W W2 EP) NL E) as [A _]. exact A.
 Qed.
 Lemma iface_text_inj ms ms2 : Q_methods ms -> wf (TIface ms) = true -> wf (TIface ms2) = true ->
-  hpre_iface ms = hpre_iface ms2 -> iface_text ms = iface_text ms2 -> identb_methods ms ms2 = true.
+  iface_text ms = iface_text ms2 -> identb_methods ms ms2 = true.
 Proof.
-  intros Q W W2 EP E. unfold iface_text in E. apply app_inv_head in E. cbn [app] in E. injection E as E.
+  intros Q W W2 E. unfold iface_text in E. apply app_inv_head in E. cbn [app] in E. injection E as E.
   apply (dec_split D) in E as [NL E]; [|apply digit_notD|exact eq_refl|exact eq_refl].
-  injection E as E.
-  destruct (wf_iface_parts _ W) as [WF _]. destruct (wf_iface_parts _ W2) as [WF2 _].
-  rewrite <- (app_nil_r (method_lines H ms)), <- (app_nil_r (method_lines H ms2)) in E.
-  destruct (Q ms2 _ _ _ _ WF WF2 (hpre_iface_pkg _ _ W W2 EP) NL E) as [A _]. exact A.
+  injection E as E. cbn [wf] in W, W2.
+  rewrite <- (app_nil_r (method_lines true H ms)), <- (app_nil_r (method_lines true H ms2)) in E.
+  destruct (Q ms2 _ _ W W2 NL E) as [A _]. exact A.
+Qed.
+
+(* a quoted tag is self-delimiting *)
+Lemma esc_split t1 : forall t2 r1 r2,
+  flat_map esc_byte t1 ++ 34 :: r1 = flat_map esc_byte t2 ++ 34 :: r2 -> t1 = t2 /\ r1 = r2.
+Proof.
+  induction t1 as [|a t1 IH]; intros [|c t2] r1 r2 E; cbn [flat_map app] in E.
+  - injection E as E. auto.
+  - exfalso. unfold esc_byte in E. destruct ((c =? 34) || (c =? 92)) eqn:X; cbn in E; [discriminate|].
+    injection E as <- _. discriminate.
+  - exfalso. unfold esc_byte in E. destruct ((a =? 34) || (a =? 92)) eqn:X; cbn in E; [discriminate|].
+    injection E as -> _. discriminate.
+  - unfold esc_byte in E.
+    destruct ((a =? 34) || (a =? 92)) eqn:X, ((c =? 34) || (c =? 92)) eqn:Y; cbn in E.
+    + injection E as -> E. destruct (IH _ _ _ E) as [-> ->]. auto.
+    + exfalso. injection E as <- _. discriminate.
+    + exfalso. injection E as -> _. discriminate.
+    + injection E as -> E. destruct (IH _ _ _ E) as [-> ->]. auto.
+Qed.
+Lemma quote_split t1 t2 r1 r2 : quote_tag t1 ++ r1 = quote_tag t2 ++ r2 -> t1 = t2 /\ r1 = r2.
+Proof.
+  unfold quote_tag. rewrite <- !app_assoc. cbn [app]. intros E. injection E as E. now apply esc_split in E.
+Qed.
+
+Lemma tagpart_split tag tag2 X1 X2 :
+  (if negb (is_nil tag) then [c_sp] ++ quote_tag tag else []) ++ [c_nl] ++ X1 =
+  (if negb (is_nil tag2) then [c_sp] ++ quote_tag tag2 else []) ++ [c_nl] ++ X2 -> tag = tag2 /\ X1 = X2.
+Proof.
+  destruct tag as [|a tg], tag2 as [|a2 tg2]; intros E.
+  - apply app_inv_head in E. apply app_inv_head in E. auto.
+  - change (negb (is_nil (a2 :: tg2))) with true in E. cbv iota in E. discriminate.
+  - change (negb (is_nil (a :: tg))) with true in E. cbv iota in E. discriminate.
+  - change (negb (is_nil (a :: tg))) with true in E. change (negb (is_nil (a2 :: tg2))) with true in E.
+    cbv iota in E. rewrite <- !app_assoc in E. apply app_inv_head in E.
+    apply quote_split in E as [-> E]. apply app_inv_head in E. auto.
+Qed.
+
+Lemma wf_ident_head c r : wf_ident (c :: r) = true -> ident_char c = true.
+Proof. cbn. intros E. apply andb_true_iff in E as [_ E]. now apply andb_true_iff in E as [E _]. Qed.
+
+Lemma method_id_free n p : wf_ident n = true -> wf_path p = true -> free Dsp (method_id n (Some p)).
+Proof.
+  intros Wn Wp. destruct (wf_ident_chars _ Wn) as [IC _]. destruct (wf_path_chars _ Wp) as (PC & NE & _).
+  unfold method_id. destruct (exported n).
+  - eapply forallb_free; [|exact IC]. apply ident_notsp.
+  - destruct p as [|c p']; [congruence|]. eapply forallb_free; [apply path_notsp|].
+    rewrite !forallb_app, PC, (ident_path_all _ IC). reflexivity.
+Qed.
+
+Lemma method_id_inj n p n2 p2 : wf_ident n = true -> wf_path p = true -> wf_ident n2 = true -> wf_path p2 = true ->
+  method_id n (Some p) = method_id n2 (Some p2) -> same_id n (Some p) n2 (Some p2) = true.
+Proof.
+  intros Wn Wp Wn2 Wp2 E. destruct (wf_ident_chars _ Wn) as [IC _]. destruct (wf_ident_chars _ Wn2) as [IC2 _].
+  destruct (wf_path_chars _ Wp) as (PC & NE & ND & _). destruct (wf_path_chars _ Wp2) as (PC2 & NE2 & ND2 & _).
+  unfold method_id in E. unfold same_id.
+  destruct p as [|c p']; [congruence|]. destruct p2 as [|c2 p2']; [congruence|].
+  destruct (exported n) eqn:X, (exported n2) eqn:X2.
+  - subst. rewrite (proj2 (str_eqb_iff _ _) eq_refl). reflexivity.
+  - exfalso. apply (ident_nodot _ IC). rewrite E. apply in_or_app. right. left. reflexivity.
+  - exfalso. apply (ident_nodot _ IC2). rewrite <- E. apply in_or_app. right. left. reflexivity.
+  - apply path_split in E as [E1 ->]; auto.
+    + injection E1 as -> ->. rewrite (proj2 (str_eqb_iff _ _) eq_refl). cbn [andb].
+      apply orb_true_iff. right. unfold ostr_eqb, option_eqb. apply str_eqb_iff. reflexivity.
+    + intros I. rewrite forallb_forall in IC. specialize (IC _ I). discriminate.
+    + intros I. rewrite forallb_forall in IC2. specialize (IC2 _ I). discriminate.
 Qed.
 
 Lemma text_heads_differ :
@@ -736,7 +765,7 @@ Proof.
       split; auto. cbn. rewrite A, B. now destruct variadic.
     + exfalso. rewrite nm_func', (nm_struct _ W2) in E.
       apply hashed_split in E as (_ & E & _); auto using hpre_struct_free; try reflexivity. now apply FS in E.
-    + exfalso. destruct ms; [discriminate|]. rewrite nm_func', (nm_iface _ W2) in E by discriminate.
+    + exfalso. destruct ms; [discriminate|]. rewrite nm_func', nm_iface in E by discriminate.
       apply hashed_split in E as (_ & E & _); auto using hpre_iface_free; try reflexivity. now apply FI in E.
   - (* struct *) intros fs IH t2 r1 r2 W W2 H1 H2 E.
     pose proof (f_equal shape E) as S. rewrite !nm_shape in S by auto.
@@ -746,7 +775,7 @@ Proof.
     + rewrite (nm_struct _ W), (nm_struct _ W2) in E.
       apply hashed_split in E as (EP & E & ->); auto using hpre_struct_free.
       split; auto. cbn [identb]. apply struct_text_inj; auto.
-    + exfalso. destruct ms; [discriminate|]. rewrite (nm_struct _ W), (nm_iface _ W2) in E by discriminate.
+    + exfalso. destruct ms; [discriminate|]. rewrite (nm_struct _ W), nm_iface in E by discriminate.
       apply hashed_split in E as (_ & E & _); auto using hpre_struct_free, hpre_iface_free. now apply SI in E.
   - (* iface *) intros ms IH t2 r1 r2 W W2 H1 H2 E.
     pose proof (f_equal shape E) as S. rewrite !nm_shape in S by auto.
@@ -756,11 +785,11 @@ Proof.
       split; auto. apply atom_eq; auto.
     + cbn [shape_of] in S.
       destruct t2; cbn [shape_of] in S; try discriminate; try (destruct d; discriminate).
-      * exfalso. rewrite nm_func', (nm_iface _ W) in E by discriminate.
+      * exfalso. rewrite nm_func', nm_iface in E by discriminate.
         apply hashed_split in E as (_ & E & _); auto using hpre_iface_free; try reflexivity. symmetry in E. now apply FI in E.
-      * exfalso. rewrite (nm_struct _ W2), (nm_iface _ W) in E by discriminate.
+      * exfalso. rewrite (nm_struct _ W2), nm_iface in E by discriminate.
         apply hashed_split in E as (_ & E & _); auto using hpre_struct_free, hpre_iface_free. symmetry in E. now apply SI in E.
-      * destruct ms; [discriminate|]. rewrite (nm_iface _ W), (nm_iface _ W2) in E by discriminate.
+      * destruct ms; [discriminate|]. rewrite !nm_iface in E by discriminate.
         apply hashed_split in E as (EP & E & ->); auto using hpre_iface_free.
         split; auto. cbn [identb]. apply iface_text_inj; auto.
   - (* TsNil *) intros ts2 r1 r2 _ _ L E. destruct ts2; [cbn in E; auto|cbn [tys_len] in L; lia].
@@ -780,60 +809,58 @@ Proof.
     apply andb_true_iff in W2 as [W2 Wr2]. apply andb_true_iff in W2 as [W2 Wn2]. apply andb_true_iff in W2 as [W2 Wt2].
     apply andb_true_iff in W2 as [Wp2 Wtag2].
     apply ostr_eqb_eq in Wp, Wp2. subst pkg pkg2.
-    destruct tag; [|discriminate]. destruct tag2; [|discriminate].
-    rewrite !field_lines_cons in E. rewrite <- !app_assoc in E.
+    destruct (wf_ident_chars _ Wn) as [IC _]. destruct (wf_ident_chars _ Wn2) as [IC2 _].
+    rewrite !field_lines_cons in E. cbn [andb] in E. rewrite <- !app_assoc in E.
     apply (split_first Dsp) in E as [EN E]; [| | |exact eq_refl|exact eq_refl].
-    2:{ destruct emb; [reflexivity|]. destruct (wf_ident_chars _ Wn) as [IC _]. eapply forallb_free; [|exact IC]. apply ident_notsp. }
-    2:{ destruct emb2; [reflexivity|]. destruct (wf_ident_chars _ Wn2) as [IC _]. eapply forallb_free; [|exact IC]. apply ident_notsp. }
+    2:{ destruct emb; [apply free_cons; split; [reflexivity|]|]; (eapply forallb_free; [|exact IC]; apply ident_notsp). }
+    2:{ destruct emb2; [apply free_cons; split; [reflexivity|]|]; (eapply forallb_free; [|exact IC2]; apply ident_notsp). }
+    assert (EM : emb = emb2 /\ n = n2).
+    { destruct emb, emb2.
+      - injection EN as ->. auto.
+      - exfalso. subst n2. apply wf_ident_head in Wn2. discriminate.
+      - exfalso. subst n. apply wf_ident_head in Wn. discriminate.
+      - auto. }
+    destruct EM as [-> ->].
     cbn [app] in E. injection E as E.
-    edestruct IHt as [A E']; [exact Wt|exact Wt2| | |exact E|]; [exact eq_refl|exact eq_refl|].
-    cbn [app] in E'. injection E' as E'. cbn [fields_len] in L. apply len_succ in L.
+    edestruct IHt as [A E']; [exact Wt|exact Wt2| | |exact E|].
+    { destruct tag; exact eq_refl. }
+    { destruct tag2; exact eq_refl. }
+    assert (TG : tag = tag2 /\ field_lines true H r ++ r1 = field_lines true H r' ++ r2).
+    { apply tagpart_split. exact E'. }
+    destruct TG as [-> E''].
+    cbn [fields_len] in L. apply len_succ in L.
     assert (PP' : any_unexp r = true -> P = P').
     { intros U. apply PP. cbn [any_unexp]. rewrite U. apply orb_true_r. }
-    destruct (IHr _ _ _ _ _ Wr Wr2 PP' L E') as [B ->]. split; auto.
-    cbn [identb_fields]. rewrite A, B, !andb_true_r. cbn [str_eqb list_eqb].
-    assert (EM : emb = emb2 /\ n = n2).
-    { destruct emb, emb2; cbn in EN.
-      - split; auto. eapply emb_name_ident; eauto.
-      - subst n2. discriminate.
-      - subst n. discriminate.
-      - auto. }
-    destruct EM as [-> ->]. rewrite Bool.eqb_reflx. cbn [andb]. unfold same_id.
+    destruct (IHr _ _ _ _ _ Wr Wr2 PP' L E'') as [B ->]. split; auto.
+    cbn [identb_fields]. rewrite A, B, !andb_true_r.
+    rewrite Bool.eqb_reflx, (proj2 (str_eqb_iff _ _) eq_refl). cbn [andb]. rewrite andb_true_r. unfold same_id.
     rewrite (proj2 (str_eqb_iff _ _) eq_refl). cbn [andb].
     destruct (exported n2) eqn:X; [reflexivity|]. cbn [orb]. rewrite PP.
     + unfold ostr_eqb. cbn. apply str_eqb_iff. reflexivity.
     + cbn [any_unexp]. rewrite X. reflexivity.
-  - (* MsNil *) intros ms2 P P' r1 r2 _ _ _ L E. destruct ms2; [cbn in E; auto|cbn [methods_len] in L; lia].
-  - (* MsCons *) intros n pkg ps IHp rs IHr v r IHm ms2 P P' r1 r2 W W2 PP L E.
+  - (* MsNil *) intros ms2 r1 r2 _ _ L E. destruct ms2; [cbn in E; auto|cbn [methods_len] in L; lia].
+  - (* MsCons *) intros n pkg ps IHp rs IHr v r IHm ms2 r1 r2 W W2 L E.
     destruct ms2 as [|n2 pkg2 ps2 rs2 v2 r']; [cbn [methods_len] in L; lia|].
     cbn [wf_methods] in W, W2.
     apply andb_true_iff in W as [W Wm]. apply andb_true_iff in W as [W Wrs]. apply andb_true_iff in W as [W Wps].
     apply andb_true_iff in W as [Wp Wn].
     apply andb_true_iff in W2 as [W2 Wm2]. apply andb_true_iff in W2 as [W2 Wrs2]. apply andb_true_iff in W2 as [W2 Wps2].
     apply andb_true_iff in W2 as [Wp2 Wn2].
-    apply ostr_eqb_eq in Wp, Wp2. subst pkg pkg2.
+    destruct pkg as [p|]; [|discriminate]. destruct pkg2 as [p2|]; [|discriminate].
     rewrite !method_lines_cons in E. rewrite <- !app_assoc in E.
-    destruct (wf_ident_chars _ Wn) as [IC _]. destruct (wf_ident_chars _ Wn2) as [IC2 _].
-    apply (split_first Dsp) in E as [-> E]; [| | |exact eq_refl|exact eq_refl].
-    2:{ eapply forallb_free; [|exact IC]. apply ident_notsp. }
-    2:{ eapply forallb_free; [|exact IC2]. apply ident_notsp. }
+    apply (split_first Dsp) in E as [EID E]; [| | |exact eq_refl|exact eq_refl]; [|now apply method_id_free|now apply method_id_free].
+    apply method_id_inj in EID; auto.
     cbn [app] in E. injection E as E.
     apply (split_first D) in E as [EH E]; auto using H_freeD; try exact eq_refl.
     apply H_inj in EH. change (func_text ps rs v = func_text ps2 rs2 v2) in EH.
     destruct (func_text_inj _ _ _ _ _ _ IHp IHr Wps Wrs Wps2 Wrs2 EH) as (-> & A & B).
     cbn [app] in E. injection E as E. cbn [methods_len] in L. apply len_succ in L.
-    assert (PP' : any_unexp_m r = true -> P = P').
-    { intros U. apply PP. cbn [any_unexp_m]. rewrite U. apply orb_true_r. }
-    destruct (IHm _ _ _ _ _ Wm Wm2 PP' L E) as [C ->]. split; auto.
-    cbn [identb_methods]. rewrite A, B, C, !andb_true_r. rewrite Bool.eqb_reflx, andb_true_r. unfold same_id.
-    rewrite (proj2 (str_eqb_iff _ _) eq_refl). cbn [andb].
-    destruct (exported n2) eqn:X; [reflexivity|]. cbn [orb]. rewrite PP.
-    + unfold ostr_eqb. cbn. apply str_eqb_iff. reflexivity.
-    + cbn [any_unexp_m]. rewrite X. reflexivity.
+    destruct (IHm _ _ _ Wm Wm2 L E) as [C ->]. split; auto.
+    cbn [identb_methods]. rewrite EID, A, B, C, Bool.eqb_reflx. reflexivity.
 Qed.
 
 Theorem type_name_injective_lemma t1 t2 :
-  wf t1 = true -> wf t2 = true -> fst (type_name H t1) = fst (type_name H t2) -> identb t1 t2 = true.
+  wf t1 = true -> wf t2 = true -> fst (type_name true H t1) = fst (type_name true H t2) -> identb t1 t2 = true.
 Proof.
   intros W1 W2 E. destruct inj_all as (Q & _).
   destruct (Q t1 t2 [] [] W1 W2 I I) as [A _]; auto.
